@@ -264,8 +264,11 @@ fn wide_integer_item(r: &mut Rng, pos: usize) -> String {
     };
     // leading zeros now and then (an integer all the same)
     let zeros = if r.chance(1, 8) { "00" } else { "" };
+    // an explicit '+' on the numeral now and then (the integer parser accepts it; a seeded change that pre-scanned for
+    // "optional minus and digits" sent such numerals down the f64 path)
+    let plus = if r.chance(1, 6) { "+" } else { "" };
     let sp: Vec<&str> = SPELLINGS.iter().filter(|(_, p)| *p == pos).map(|(s, _)| *s).collect();
-    format!("{zeros}{q} {}", r.pick(&sp))
+    format!("{plus}{zeros}{q} {}", r.pick(&sp))
 }
 
 fn wide_integer_string(r: &mut Rng) -> String {
